@@ -142,8 +142,8 @@ def sub_agree(case):
 CREATE_OPTS = {'default': {}, 'locktime': {'locktime': 650000}, 'rbf': {'replace_by_fee': True},
                'no_fee_sniping': {}}      # wallet attribute anti_fee_sniping = False on the creating wallet: locktime 0
 
-def _templates(wt, m, n, seed):
-    key = (wt, m, n, seed, os.getpid())
+def _templates(wt, m, n, seed, offline=False):
+    key = (wt, m, n, seed, offline, os.getpid())
     if key not in _TPL:
         paths = []
         order = list(range(n))
@@ -162,7 +162,10 @@ def _templates(wt, m, n, seed):
                 if k.address != addr:
                     raise RuntimeError('cosigner wallets disagree on the funded address (see sub-space agree): %s %s'
                                        % (k.address, addr))
-            w.utxo_add(k.address, 100000, wh.utxo_txid(seed, 77), 0, confirmations=5)
+            if h == 0 or not offline:
+                # offline: only the creating wallet knows the output; the others (air-gapped signers) derived the
+                # address but never saw the funding transaction
+                w.utxo_add(k.address, 100000, wh.utxo_txid(seed, 77), 0, confirmations=5)
             wh.close(w, None, remove=False)
             paths.append(p)
         _TPL[key] = (paths, addr)
@@ -196,7 +199,7 @@ def sub_ceremony(case):
     from bitcoinlib.transactions import TransactionError
     cfg, hist = case['cfg'], case['hist']
     wt, m, n, seed = cfg['wt'], cfg['m'], cfg['n'], cfg['seed']
-    tpl, addr = _templates(wt, m, n, seed)
+    tpl, addr = _templates(wt, m, n, seed, bool(cfg.get('offline')))
     ws = []
     devs = []
     try:
@@ -295,7 +298,7 @@ def sub_ceremony(case):
         if hist and len(hist) >= cfg['max_len']:
             en = []
         elif not hist:
-            en = [['sign', j, 'own'] for j in range(n)]
+            en = [['sign', j, 'own'] for j in (range(n) if not cfg.get('offline') else [0])]
         else:
             en = [['sign', j, f] for j in range(n) for f in cfg['forms']]
         return {'devs': devs, 'ret': {'state': state, 'enabled': en}, 'out': label}
@@ -344,6 +347,11 @@ def run(ctx):
             if q and (wts.index(wt) + ['locktime', 'rbf', 'no_fee_sniping'].index(opt)) % 3:
                 continue        # quick: each option on one witness type, each witness type with one option
             cer.append(({'wt': wt, 'm': 2, 'n': 3, 'seed': seed, 'forms': forms, 'max_len': 3, 'create': opt}, 3))
+    # cosigners that never saw the funding transaction (air-gapped signers): only wallet 0 knows the output
+    for wt in wts if not q else wts[1:2] + wts[2:]:
+        # (raw hex carries neither value nor address of the output: an offline wallet refuses it and points to the
+        # dictionary form - a documented limit, so only the object and dictionary forms are handed around here)
+        cer.append(({'wt': wt, 'm': 2, 'n': 3, 'seed': seed, 'forms': ['obj', 'dict'], 'max_len': 3, 'offline': True}, 3))
     # ceremonies whose first signature has a rare size (<= 70 bytes with the hash-type byte): the output amount is moved
     # through a window and the library's own signature is measured to select the amount
     W = 800 if q else 2000
